@@ -57,3 +57,212 @@ Section Legacy.
     destruct (jdig e f); [|reflexivity]. rewrite (existsb_perm _ _ _ HP). reflexivity.
   Qed.
 End Legacy.
+
+(* ---- fd/util.go extractConditions: the translation of a configured value is the documented one ------------ *)
+
+Lemma json_strings_all_strings l vs :
+  json_strings l = Some vs -> l = map JStr vs.
+Proof.
+  revert vs. induction l as [|x r IH]; intros vs H.
+  - cbn in H. injection H as <-. reflexivity.
+  - unfold json_strings in H. cbn [opt_map] in H.
+    destruct x as [| | |s| |]; cbn [json_string] in H; try discriminate.
+    fold (json_strings r) in H. destruct (json_strings r) as [ws|] eqn:E; [|discriminate].
+    injection H as <-. cbn [map]. f_equal. apply IH. reflexivity.
+Qed.
+
+Lemma json_strings_map_JStr vs : json_strings (map JStr vs) = Some vs.
+Proof.
+  induction vs as [|v r IH]; [reflexivity|].
+  unfold json_strings in *. cbn [map opt_map json_string]. rewrite IH. reflexivity.
+Qed.
+
+Lemma json_strings_some_iff l :
+  forallb (fun x => isSome (json_string x)) l = isSome (json_strings l).
+Proof.
+  induction l as [|x r IH]; [reflexivity|].
+  unfold json_strings in *. cbn [forallb opt_map].
+  destruct (json_string x); cbn [isSome andb]; [|reflexivity].
+  rewrite IH. destruct (opt_map json_string r); reflexivity.
+Qed.
+
+(* cfg.CompileRegex accepts exactly the strings  "/" ++ inner ++ "/"  whose inner part compiles *)
+Lemma compile_regex_some re_ok s p :
+  compile_regex re_ok s = Some p <-> s = 47%N :: p ++ [47%N] /\ re_ok p = true.
+Proof.
+  unfold compile_regex. split.
+  - destruct s as [|c r]; [discriminate|].
+    unfold is_slash. destruct (N.eqb_spec c 47) as [->|]; cbn [negb]; [|discriminate].
+    destruct (rev r) as [|l ri] eqn:E; [discriminate|].
+    destruct (N.eqb_spec l 47) as [->|]; [|discriminate].
+    destruct (re_ok (rev ri)) eqn:Hok; [|discriminate].
+    intros H. injection H as <-. split; [|exact Hok].
+    f_equal. rewrite <- (rev_involutive r), E. reflexivity.
+  - intros [-> Hok]. unfold is_slash. cbn [N.eqb Pos.eqb negb].
+    rewrite rev_app_distr. cbn [rev app]. cbn [N.eqb Pos.eqb].
+    rewrite rev_involutive, Hok. reflexivity.
+Qed.
+
+Lemma delimited_some s p : delimited s = Some p <-> s = 47%N :: p ++ [47%N].
+Proof.
+  unfold delimited. rewrite compile_regex_some. split; [intros [H _]; exact H|intros H; split; [exact H|reflexivity]].
+Qed.
+
+Lemma compile_regex_delimited re_ok s :
+  compile_regex re_ok s = match delimited s with Some p => if re_ok p then Some p else None | None => None end.
+Proof.
+  unfold delimited, compile_regex. destruct s as [|c r]; [reflexivity|].
+  destruct (negb (is_slash c)); [reflexivity|].
+  destruct (rev r) as [|l ri]; [reflexivity|]. destruct (is_slash l); reflexivity.
+Qed.
+
+Lemma delimited_starts_with_slash s p : delimited s = Some p -> starts_with_slash s = true.
+Proof. intros H. apply delimited_some in H. subst s. reflexivity. Qed.
+
+(* the translation as coded is the documented kind of test, for every value *)
+Theorem extract_value_documented re_ok v : extract_value re_ok v = doc_kind re_ok v.
+Proof.
+  destruct v as [| | |s|l|]; try reflexivity.
+  unfold extract_value, doc_kind. destruct s as [|c r]; [reflexivity|].
+  rewrite compile_regex_delimited. cbn [starts_with_slash].
+  destruct (is_slash c) eqn:Hc.
+  - destruct (delimited (c :: r)) as [p|]; [|reflexivity]. destruct (re_ok p); reflexivity.
+  - destruct (delimited (c :: r)) as [p|] eqn:Hd; [|reflexivity].
+    apply delimited_starts_with_slash in Hd. cbn [starts_with_slash] in Hd. congruence.
+Qed.
+
+(* a list is ALWAYS a list of exact values (prefixes), whatever its length and whatever its strings look like *)
+Theorem extract_list_exact re_ok vs : extract_value re_ok (JArr (map JStr vs)) = CExact vs.
+Proof. cbn [extract_value]. rewrite json_strings_map_JStr. reflexivity. Qed.
+
+Theorem extract_list_never_regexp re_ok l p : extract_value re_ok (JArr l) <> CRegexp p.
+Proof. cbn [extract_value]. destruct (json_strings l); discriminate. Qed.
+
+(* only a scalar string delimited by slashes (whose inner part compiles) is a regular expression *)
+Theorem extract_regexp_iff re_ok v p :
+  extract_value re_ok v = CRegexp p <-> v = JStr (47%N :: p ++ [47%N]) /\ re_ok p = true.
+Proof.
+  split.
+  - destruct v as [| | |s|l|]; try discriminate.
+    + cbn [extract_value]. destruct s as [|c r]; [discriminate|].
+      destruct (is_slash c); [|discriminate].
+      destruct (compile_regex re_ok (c :: r)) as [q|] eqn:E; [|discriminate].
+      intros H. injection H as ->. apply compile_regex_some in E. destruct E as [-> Hok]. split; [reflexivity|exact Hok].
+    + intros H. exfalso. exact (extract_list_never_regexp _ _ _ H).
+  - intros [-> Hok]. cbn [extract_value]. unfold is_slash at 1. cbn [N.eqb Pos.eqb].
+    destruct (compile_regex re_ok (47%N :: p ++ [47%N])) as [q|] eqn:E.
+    + apply compile_regex_some in E. destruct E as [E _]. injection E as E. apply app_inv_tail in E. subst q. reflexivity.
+    + assert (H : compile_regex re_ok (47%N :: p ++ [47%N]) = Some p) by (apply compile_regex_some; split; [reflexivity|exact Hok]).
+      congruence.
+Qed.
+
+(* every other scalar string is one exact value *)
+Theorem extract_scalar_plain re_ok s :
+  starts_with_slash s = false -> extract_value re_ok (JStr s) = CExact [s].
+Proof.
+  intros H. cbn [extract_value]. destruct s as [|c r]; [reflexivity|].
+  cbn [starts_with_slash] in H. rewrite H. reflexivity.
+Qed.
+
+(* refusal: exactly the values that are neither a list of strings, nor a plain string, nor a /regexp/ that compiles *)
+Theorem extract_refused_iff re_ok v :
+  extract_value re_ok v = CRefused <-> cfg_accepted re_ok v = false.
+Proof.
+  rewrite extract_value_documented. destruct v as [| |r|s|l|fs]; cbn [doc_kind cfg_accepted]; try (split; reflexivity).
+  - destruct (delimited s) as [p|].
+    + destruct (re_ok p); split; (reflexivity || discriminate).
+    + destruct (starts_with_slash s); cbn [negb]; split; (reflexivity || discriminate).
+  - rewrite json_strings_some_iff. destruct (json_strings l); cbn [isSome]; split; (reflexivity || discriminate).
+Qed.
+
+Lemma extract_conds_accepts re_ok cfg :
+  isSome (extract_conds re_ok cfg) = forallb (fun pv => cfg_accepted re_ok (snd pv)) cfg.
+Proof.
+  induction cfg as [|pv r IH]; [reflexivity|].
+  unfold extract_conds in *. cbn [opt_map forallb].
+  destruct (cfg_accepted re_ok (snd pv)) eqn:Ha.
+  - destruct (extract_value re_ok (snd pv)) eqn:Ev.
+    + cbn [cond_of_kind andb]. rewrite <- IH. destruct (opt_map _ r); reflexivity.
+    + cbn [cond_of_kind andb]. rewrite <- IH. destruct (opt_map _ r); reflexivity.
+    + apply extract_refused_iff in Ev. congruence.
+  - apply extract_refused_iff in Ha. rewrite Ha. reflexivity.
+Qed.
+
+Section ConfigSpec.
+  Variable re_match : bytes -> bytes -> bool.
+  Variable re_ok : bytes -> bool.
+
+  Lemma existsb_map_JStr byp s vs :
+    existsb (fun x => match x with JStr w => lit_test byp s w | _ => false end) (map JStr vs)
+    = existsb (fun v => if byp then has_prefix s v else bytes_eqb v s) vs.
+  Proof. induction vs as [|v r IH]; [reflexivity|]. cbn [map existsb]. rewrite IH. reflexivity. Qed.
+
+  (* one entry: the condition extractConditions builds holds exactly when the configured value does *)
+  Lemma cond_holds_cfg byp e path v c :
+    cond_of_kind path (extract_value re_ok v) = Some c ->
+    cond_holds re_match byp e c = cfg_cond_holds re_match byp e (path, v).
+  Proof.
+    intros H. unfold cond_holds, cfg_cond_holds. cbn [fst snd].
+    rewrite extract_value_documented in H.
+    destruct v as [| |r|s|l|fs]; cbn [doc_kind cond_of_kind] in H; try discriminate.
+    - (* scalar string *)
+      unfold cfg_value_holds.
+      destruct (delimited s) as [p|] eqn:Hd.
+      + destruct (re_ok p); [|discriminate]. cbn [cond_of_kind] in H. injection H as <-.
+        cbn [c_field c_values]. unfold regexp_hit. cbn [c_regexp existsb].
+        destruct (jdig e path); [|reflexivity]. apply Bool.orb_false_r.
+      + destruct (starts_with_slash s); [discriminate|]. cbn [cond_of_kind] in H. injection H as <-.
+        cbn [c_field c_values]. unfold regexp_hit. cbn [c_regexp existsb orb].
+        destruct (jdig e path); [|reflexivity]. unfold lit_test. apply Bool.orb_false_r.
+    - (* list *)
+      destruct (json_strings l) as [vs|] eqn:Hl; [|discriminate]. cbn [cond_of_kind] in H. injection H as <-.
+      cbn [c_field c_values]. unfold regexp_hit. cbn [c_regexp orb].
+      destruct (jdig e path); [|reflexivity].
+      apply json_strings_all_strings in Hl. subst l. unfold cfg_value_holds. rewrite existsb_map_JStr. reflexivity.
+  Qed.
+
+  Lemma conds_hold_cfg byp e cfg conds :
+    extract_conds re_ok cfg = Some conds ->
+    existsb (cond_holds re_match byp e) conds = existsb (cfg_cond_holds re_match byp e) cfg
+    /\ forallb (cond_holds re_match byp e) conds = forallb (cfg_cond_holds re_match byp e) cfg.
+  Proof.
+    revert conds. induction cfg as [|[path v] r IH]; intros conds H.
+    - cbn in H. injection H as <-. split; reflexivity.
+    - unfold extract_conds in H. cbn [opt_map fst snd] in H.
+      destruct (cond_of_kind path (extract_value re_ok v)) as [c|] eqn:Ec; [|discriminate].
+      fold (extract_conds re_ok r) in H. destruct (extract_conds re_ok r) as [cs|] eqn:Er; [|discriminate].
+      injection H as <-. destruct (IH cs eq_refl) as [IHe IHf].
+      cbn [existsb forallb]. rewrite (cond_holds_cfg byp e path v c Ec), IHe, IHf. split; reflexivity.
+  Qed.
+
+  (* END TO END: whenever the reader accepts a match_fields map, the decision isMatch takes with the conditions it built
+     is the documented meaning of the map as written: a list = its strings as exact values / prefixes (whatever its
+     length and content), a string between slashes = a regexp, any other string = itself; all / at least one of the
+     fields; optional inversion *)
+  Theorem config_match_spec mode invert cfg conds e :
+    extract_conds re_ok cfg = Some conds ->
+    is_match re_match mode invert conds e = cfg_spec re_match mode invert cfg e.
+  Proof.
+    intros H. rewrite match_fields_spec. unfold match_spec, cfg_spec.
+    destruct (conds_hold_cfg (by_prefix mode) e cfg conds H) as [He Hf]. rewrite He, Hf. reflexivity.
+  Qed.
+End ConfigSpec.
+
+(* a map whose values are all lists is decided without ever consulting the regexp engine: no string inside a list is
+   read as a pattern, in any mode *)
+Theorem config_lists_ignore_regexp re1 re2 re_ok mode invert cfg conds e :
+  (forall pv, In pv cfg -> exists l, snd pv = JArr l) ->
+  extract_conds re_ok cfg = Some conds ->
+  is_match re1 mode invert conds e = is_match re2 mode invert conds e.
+Proof.
+  intros Hl H. rewrite (config_match_spec re1 re_ok _ _ _ _ _ H), (config_match_spec re2 re_ok _ _ _ _ _ H).
+  unfold cfg_spec.
+  assert (E : forall byp pv, In pv cfg -> cfg_cond_holds re1 byp e pv = cfg_cond_holds re2 byp e pv).
+  { intros byp pv Hin. destruct (Hl pv Hin) as [l Hv]. unfold cfg_cond_holds. rewrite Hv.
+    destruct (jdig e (fst pv)); reflexivity. }
+  clear H Hl. f_equal.
+  induction cfg as [|pv r IH]; [reflexivity|]. cbn [existsb forallb].
+  rewrite (E (by_prefix mode) pv (or_introl eq_refl)).
+  assert (IH' := IH (fun byp q Hq => E byp q (or_intror Hq))).
+  destruct (is_or mode); rewrite IH'; reflexivity.
+Qed.
